@@ -125,9 +125,21 @@ def check(cx):
                        "ask for the pager lock: opposite orders, two threads can deadlock" % root)
     # a PAGER guard alive across a call into non-pager code that takes page latches is the inverse order
     seen2 = set()
+    # functions that can block on a page latch without going through the pager's own (audited) functions
+    outside = {fid for fid, acq in L.direct.items() if fid not in pager_scope and any(cl == "PAGE_LATCH" for _, cl, _m in acq)}
+    edges_ = p.edges()
+    changed = True
+    while changed:
+        changed = False
+        for fid in p.raw_fns:
+            if fid in outside or fid in pager_scope:
+                continue
+            if any(t in outside for t in edges_.get(fid, ())):
+                outside.add(fid)
+                changed = True
     for hm, am, f, c, via in graph.get(("PAGER", "PAGE_LATCH"), []):
         ok_via = via == "direct" and (f.root or f.id) in pager_scope or via in pager_scope or \
-            (via in p.fns and (p.fns[via].root or via) in pager_scope)
+            (via in p.fns and (p.fns[via].root or via) in pager_scope) or (via != "direct" and via not in outside)
         key = "pager-held-across:%s" % (f.root or f.id)
         if ok_via or key in seen2:
             continue
